@@ -641,7 +641,8 @@ class World:
                 import types as _t
                 # shape 6: no mapping - func(**[...]) raises TypeError before func is entered
                 elems.append([{"s": s, "j": j}, _t.MappingProxyType({"s": s}), {}, {"s": s, "j": j}, StrMapping({"k": s}),
-                              {"func": s, "group_name": j, "self": None, "args": (), "kwargs": {}},
+                              {"func": s, "function": j, "group_name": j, "self": None, "args": (), "kwargs": {}, "arg": 1, "arg_stars": 2, "cls": 3, "awaitable": 4,
+                               "coroutine_function": 5},
                               [("a", 1)] if unc_ok else {}][shape % 7])
         rm.elements = elems
         pull_ops = spec.get("pull_ops") or {}
